@@ -233,7 +233,7 @@ func (E *Engine) encodeOnce(name string, level int, cands map[CandKey]bool) (res
 	}
 	defer func() {
 		for _, o := range enc.Obls {
-			if o.Expect == "unsat" {
+			if o.Expect == "unsat" && o.Kind != "lemma" {
 				o.Probes = probes
 			}
 		}
@@ -320,6 +320,43 @@ func (E *Engine) encodeOnce(name string, level int, cands map[CandKey]bool) (res
 			o := enc.Oblige(name, "cover", "exit", exitReach, fr.pos(fn.Pos()))
 			o.Expect = "sat"
 			o.Facet = levelNames[level]
+		}
+	}
+	// a callsite clause that matched no call would be vacuous
+	if ct != nil && level >= 0 {
+		for _, cs := range ct.CallSites {
+			if facetLevel[cs.C.Facet] == level && !fr.csHit[cs] {
+				fr.specError(cs.C, fmt.Errorf("callsite: %s makes no call of %s", name, cs.Callee))
+			}
+		}
+	}
+	// every lemma about an opaque specification function that was instantiated above is an obligation of this function:
+	// proved for arbitrary integer arguments from the function's definition, in a query of its own
+	if len(fx.sfUsed) > 0 {
+		var keys []string
+		for k := range fx.sfUsed {
+			keys = append(keys, k)
+		}
+		sort.Strings(keys)
+		for _, k := range keys {
+			lm := fx.sfUsed[k]
+			lenc := NewEnc()
+			savedEnc, savedSeen := fx.enc, fx.sfSeen
+			fx.enc, fx.sfSeen, fx.sfRevealAll = lenc, map[string]bool{}, true
+			ev := fr.env(entry, entry, nil)
+			ev.local = nil
+			for _, p := range lm.Params {
+				ev = ev.bind(p, IntV(lenc.Decl("lm."+p, "Int"), tInt))
+			}
+			t, err := ev.EvalBool(lm.C.E)
+			fx.enc, fx.sfSeen, fx.sfRevealAll = savedEnc, savedSeen, false
+			if err != nil {
+				fr.specError(lm.C, err)
+				continue
+			}
+			o := lenc.Oblige(name, "lemma", k, t, token.Position{Filename: lm.C.File, Line: lm.C.Line})
+			o.Facet = levelNames[max(level, 0)]
+			enc.Obls = append(enc.Obls, o)
 		}
 	}
 	res.Obls = enc.Obls
